@@ -205,6 +205,25 @@ theorem rejects_at_control (ts : List Task)
       · exact hnot (by simpa using hd2 n hn)
       · exact hnot (by simpa using hd3 n hn)
 
+/-- inside one generator: a second sub-task with the same `basename:name`, a second plain task with the same
+    `basename`, and a sub-task whose `basename` is already a plain (non-group) task are rejected as duplicated
+    definitions.  (Not covered, and false on the current code: a `name: None` dict or a Task object arriving for a name
+    that is already defined — `accepts_replaced_duplicate`, `wellformed_counterexample`.) -/
+theorem rejects_duplicate_in_generator (tasks : Tasks) (d0 : TDict) (b : Name) (nv : RawVal) (nf bf : Name) :
+    (hasKey tasks (fullName (.str b) nv nf bf) = true →
+      yieldSub tasks d0 (.str b) nv nf bf = .error .invalidTask) ∧
+    (hasKey tasks b = true → yieldPlain tasks d0 (.str b) = .error .invalidTask ∨ b = []) ∧
+    (∀ g full sub, lookup tasks b = some g → g.hasSubtask = false →
+      attachSub tasks b full sub = .error .invalidTask) := by
+  refine ⟨?_, ?_, ?_⟩
+  · intro h; simp [yieldSub, h]
+  · intro h
+    cases b with
+    | nil => exact Or.inr rfl
+    | cons x xs => left; simp [yieldPlain, RawVal.truthy, RawVal.hashable, h]
+  · intro g full sub hg hs
+    simp [attachSub, hg, hs]
+
 /-- An accepted load implies, for every creator: its name is not a command name; a returned dict has no `name`,
     has `actions`, a string `basename` if any, and every other field is a known attribute whose value passes
     `Task.valid_attr`; a generator yields only dicts and Task objects, every yielded dict has `name` or `basename`,
